@@ -256,6 +256,7 @@ class Ctx:
         self.sample_cap = 8
         self.violations = []          # unlisted
         self.known_hits = collections.Counter()
+        self.sig_counts = collections.Counter()
         self.known = load_known(prop)
         self.inconclusive = []
         self.rule = ""
@@ -314,7 +315,8 @@ class Ctx:
             if fnmatch.fnmatchcase(sig, e["key"]):
                 self.known_hits[e["key"]] += 1
                 return False
-        if len(self.violations) < 200:
+        self.sig_counts[sig] += 1
+        if self.sig_counts[sig] <= 1 and len(self.violations) < 500:
             self.violations.append({"sig": sig, "case": case, "detail": detail})
         self.stats["violations_total"] += 1
         return True
@@ -326,7 +328,8 @@ class Ctx:
 
     # -- end of run ---------------------------------------------------------------------
     def finish(self, fatal_inconclusive=None) -> int:
-        os.makedirs(os.path.join(ROOT, "evidence"), exist_ok=True)
+        evdir = os.environ.get("VERIF_EVIDENCE_DIR") or os.path.join(ROOT, "evidence")
+        os.makedirs(evdir, exist_ok=True)
         wall = time.time() - self.t0
         for e in self.known:
             n = self.known_hits.get(e["key"], 0)
@@ -359,7 +362,7 @@ class Ctx:
             "known_finding_hits": dict(self.known_hits),
             "inconclusive_cases": self.stats.get("inconclusive_cases", 0),
             "inconclusive_examples": self.inconclusive[:5],
-            "distinct_violation_signatures": sorted(seen),
+            "distinct_violation_signatures": {k: self.sig_counts[k] for k in sorted(seen)},
         }
         cov.update(self.info)
         if self.exhaustive is not None:
@@ -371,7 +374,7 @@ class Ctx:
             "verdict": "violated" if rc == 1 else "inconclusive" if rc == 2 else "held_on_observed",
             "repo_head": _repo_head(),
         }
-        with open(os.path.join(ROOT, "evidence", self.prop + ".json"), "w") as f:
+        with open(os.path.join(evdir, self.prop + ".json"), "w") as f:
             json.dump(ev, f, indent=1, sort_keys=True, default=repr)
             f.write("\n")
         print("%s tier=%s seed=%d evaluations=%d distinct_nontrivial=%d known=%d violations=%d wall=%.1fs -> %s" % (
@@ -409,7 +412,7 @@ def _shrink(obj, depth=0):
 
 
 def write_replay(prop, v) -> str:
-    d = os.path.join(ROOT, "replays")
+    d = os.environ.get("VERIF_REPLAY_DIR") or os.path.join(ROOT, "replays")
     os.makedirs(d, exist_ok=True)
     h = canon_hash([v["sig"], v["case"]])
     p = os.path.join(d, "%s-%s.json" % (prop, h))
